@@ -421,6 +421,39 @@ def rule_EG(run: Run) -> RuleResult:
     return res
 
 
+# ------------------------------------------------------------------ R-WI
+def rule_WI(run: Run) -> RuleResult:
+    """Whole-iteration agreement: a child that evaluation consults once per element of a collection
+    (every member, every combination of a Map) is keyed / validated / explained once per element too."""
+    res = RuleResult("R-WI")
+    nec = ("a child evaluated for every element of a collection but keyed, validated or explained for one "
+           "representative element only misses the keys / failures of the other elements: the dependencies of an "
+           "element may differ (overload dispatch, nested options), so the cache key and validate() are wrong for those")
+    n = 0
+    for cls in run.node_classes():
+        tab: Dict[str, Dict[str, Set[bool]]] = {}
+        for op in OPS:
+            for p in normal(run.paths(cls, op)):
+                for e in p.events:
+                    if e.kind == "op" and e.op == op and isinstance(e.target, Child) and not e.failed:
+                        tab.setdefault(e.target.path, {}).setdefault(op, set()).add(bool(e.whole))
+        for c, d in sorted(tab.items()):
+            if d.get("evaluate") != {True}:
+                continue
+            n += 1
+            for op in ("keys", "validate", "explain"):
+                if op not in d:
+                    continue        # coverage itself is R-KC / R-VA / R-XA
+                f, ln = _meth_loc(run, cls, op)
+                ok = d[op] == {True} if op != "explain" else True in d[op]
+                res.add(f"{cls.qualname}:{op}:{c} consulted for every element", ok, f, ln,
+                        f"evaluate() consults '{c}' once per element; {op}() " + ("does too" if ok else "consults it for a single representative element"), nec)
+    res.count("iterated_children", n)
+    if n < 6:
+        raise AnalysisError(f"R-WI found only {n} children that evaluation consults per element (10 confirmed by hand)")
+    return res
+
+
 def _in_explain_method(run: Run, ev) -> bool:
     import ast
     for m in run.repo.modules.values():
